@@ -671,6 +671,9 @@ func scenAPI(out *scenOut, r *rng, thorough bool) {
 	for _, cause := range []string{"quitmsg", "kill", "ctx", "readerr"} {
 		noRendererRuns(out, cause) // (the C13 part: late calls on a program without a renderer)
 	}
+	for _, cause := range []string{"quit", "kill"} {
+		noRendererStalledOutput(out, cause)
+	}
 	var wg sync.WaitGroup
 	sem := make(chan struct{}, 8)
 	for _, c := range causes {
@@ -1461,5 +1464,87 @@ func noRendererRuns(out *scenOut, cause string) {
 	case <-done:
 	case <-time.After(3 * time.Second):
 		out.fail(finding{Property: "C13", Class: "new", What: "Wait / Send / Println / Printf / Quit after the end of a program without a renderer do not all return", Input: desc, Observed: goroutineDump()})
+	}
+}
+
+// stalledWriter: an output nobody reads any more (a full pipe): Write never returns.
+type stalledWriter struct{ release chan struct{} }
+
+func (w stalledWriter) Write(p []byte) (int, error) { <-w.release; return len(p), nil }
+
+// noRendererStalledOutput: a program built with WithoutRenderer whose output is stalled (a pipe
+// nobody drains). It never writes to it, so nothing can hang there: Println / Printf called while
+// it runs return once the loop has taken them, callers parked in them when the program ends are
+// released, and calls after the end return at once (C13).
+func noRendererStalledOutput(out *scenOut, cause string) {
+	ctl := newRecCtl()
+	w := stalledWriter{release: make(chan struct{})}
+	defer close(w.release)
+	hold := make(chan struct{})
+	ctl.onUpdate = func(m tea.Msg, v int) tea.Cmd {
+		if u, ok := m.(userMsg); ok && u.Sender == 2 {
+			<-hold
+		}
+		return nil
+	}
+	p := tea.NewProgram(recModel{c: ctl}, tea.WithoutRenderer(), tea.WithOutput(w), tea.WithInput(nil), tea.WithoutSignalHandler())
+	done := make(chan struct{})
+	go func() { p.Run(); close(done) }()
+	desc := "WithoutRenderer, output stalled for ever; Println / Printf while running, three callers parked in them while Update holds the loop, then " + cause + "; then calls after the end"
+	if !waitFor(3*time.Second, func() bool { return ctl.log.has("view-exit", "") }) {
+		p.Kill()
+		return
+	}
+	out.record("no-renderer-stalled-output/"+cause, desc)
+	type call struct {
+		name string
+		done chan struct{}
+	}
+	var calls []call
+	start := func(name string, f func()) {
+		c := call{name, make(chan struct{})}
+		calls = append(calls, c)
+		go func() { f(); close(c.done) }()
+	}
+	start("println@running", func() { p.Println("a") })
+	start("printf@running", func() { p.Printf("%d", 1) })
+	time.Sleep(30 * time.Millisecond)
+	go p.Send(userMsg{2, 0})
+	waitFor(2*time.Second, func() bool { return ctl.log.has("update-enter", "u2.0") })
+	for i := 0; i < 3; i++ {
+		start(fmt.Sprintf("println#%d@parked", i), func() { p.Println("b") })
+		start(fmt.Sprintf("printf#%d@parked", i), func() { p.Printf("%s", "c") })
+	}
+	time.Sleep(30 * time.Millisecond)
+	if cause == "kill" {
+		p.Kill()
+		close(hold)
+	} else {
+		close(hold)
+		p.Quit()
+	}
+	select {
+	case <-done:
+	case <-time.After(4 * time.Second):
+		out.fail(finding{Property: "C04", Class: "new", What: "Run does not return (program without a renderer, stalled output)", Input: desc, Observed: goroutineDump()})
+		p.Kill()
+		return
+	}
+	start("println@after", func() { p.Println("d") })
+	start("printf@after", func() { p.Printf("%d", 2) })
+	start("wait@after", p.Wait)
+	deadline := time.After(3 * time.Second)
+	var stuck []string
+	for _, c := range calls {
+		select {
+		case <-c.done:
+		case <-deadline:
+			stuck = append(stuck, c.name)
+			deadline = time.After(time.Millisecond)
+		}
+	}
+	if len(stuck) > 0 {
+		out.fail(finding{Property: "C13", Class: "new", What: "calls that never returned although the program has ended (program without a renderer, stalled output)", Input: desc,
+			Expected: "all return", Observed: strings.Join(stuck, ", ")})
 	}
 }
